@@ -11,7 +11,7 @@ from typing import Any
 import z3
 
 from . import sym
-from .values import (SDict, HeapList, BoundBuiltin, BoundMethod, BuiltinRef, ClassRef, Closure, ExcVal, FuncRef, ModuleRef, NOTIMPL,
+from .values import (GList, SDict, HeapList, BoundBuiltin, BoundMethod, BuiltinRef, ClassRef, Closure, ExcVal, FuncRef, ModuleRef, NOTIMPL,
                      Obj, Opaque, PDict, PList, SArr, SBool, SInt, SMap, SName, SOpt, SReal, SSeq, SSet, SStrOpaque,
                      SpecFn, Unsupported, num_term, real_term)
 
@@ -880,7 +880,7 @@ class Models:
 
     # ------------------------------------------------------------------ attributes of engine values
     def getattr(self, ip, o, attr, node=None):
-        if isinstance(o, HeapList):
+        if isinstance(o, (HeapList, GList)):
             return BoundBuiltin(o, attr)
         if isinstance(o, (PList, PDict, SArr, SSeq, SSet, SMap, str, SStrOpaque, tuple, SName)) or isinstance(o, (int, float, SReal, SInt)):
             if isinstance(o, SArr):
@@ -1365,6 +1365,11 @@ class Models:
 
     # ---- bound methods of engine containers
     def call_bound(self, ip, recv, name, args, kwargs, node=None):
+        if isinstance(recv, GList):
+            if name == "append":
+                recv.appended.append(args[0])
+                return None
+            raise Unsupported(f"list.{name} on a list under construction")
         if isinstance(recv, HeapList):
             if name == "append":
                 ip.schema.hl_append(ip, recv, args[0])
